@@ -51,7 +51,11 @@ def main():
     if fault["instant"] == "idle_between_calls" and str(fault["how"]).startswith("exit:"):
         # workers inherit the variable: each leaves a thread behind that exits with the requested status on demand
         os.environ["C10_MINE_DIR"] = os.path.dirname(os.path.abspath(outfile))
-    p = Parallel(n_jobs=J, backend="loky", batch_size=cfg.get("batch_size", 1), pre_dispatch=cfg.get("pre_dispatch", "2*n_jobs"))
+    extra = {}
+    if fault["instant"] == "after_idle_timeout":
+        # workers leave after 1 s of idleness (300 s by default): the faulty call starts on an executor without any worker
+        extra["idle_worker_timeout"] = 1.0
+    p = Parallel(n_jobs=J, backend="loky", batch_size=cfg.get("batch_size", 1), pre_dispatch=cfg.get("pre_dispatch", "2*n_jobs"), **extra)
     calls = []
     last_pids = []
 
@@ -64,7 +68,18 @@ def main():
             p = Parallel(n_jobs=fault["J2"], backend="loky", batch_size=cfg.get("batch_size", 1), pre_dispatch=cfg.get("pre_dispatch", "2*n_jobs"))
         spec = None
         victims = set()
-        if fault["call"] == k and fault["instant"] not in ("idle_between_calls", "next_call_startup"):
+        nloc = N
+        if fault["call"] == k and fault["instant"] == "after_idle_timeout":
+            # wait until every worker of the previous call has left by itself, then make a call of ONE batch whose worker
+            # dies (and, in some cases, first kills the other freshly started workers, which are idle)
+            t_end = time.monotonic() + 15
+            while any(alive(pid) for pid in last_pids) and time.monotonic() < t_end:
+                time.sleep(0.05)
+            note(ev="workers_idled_out", still_alive=[pid for pid in last_pids if alive(pid)])
+            nloc = 1
+            victims = {0}
+            spec = dict(instant="mid_task_slow", how=fault["how"], parent=parent, after=0.4, kill_siblings=fault["victims"] > 1)
+        elif fault["call"] == k and fault["instant"] not in ("idle_between_calls", "next_call_startup"):
             victims = set(fault["victim_tasks"])
             spec = dict(instant=fault["instant"], how=fault["how"], parent=parent)
         killer = None
@@ -95,7 +110,7 @@ def main():
             tasks = [delayed(c10_tasks.with_arg)(i, tag, c10_tasks.DieOnUnpickle(spec["how"], parent) if i in victims else None, cfg.get("dur", 0.02))
                      for i in range(N)]
         else:
-            tasks = [delayed(c10_tasks.task)(i, tag, spec if i in victims else None, cfg.get("dur", 0.02)) for i in range(N)]
+            tasks = [delayed(c10_tasks.task)(i, tag, spec if i in victims else None, cfg.get("dur", 0.02)) for i in range(nloc)]
         rec = dict(call=k)
         note(ev="call_start", call=k)
         t0 = time.monotonic()
@@ -103,7 +118,7 @@ def main():
             killer.start()
         try:
             out = p(tasks)
-            rec["out_ok"] = [r[:2] for r in out] == [[tag, i] for i in range(N)] or [tuple(r[:2]) for r in out] == [(tag, i) for i in range(N)]
+            rec["out_ok"] = [r[:2] for r in out] == [[tag, i] for i in range(nloc)] or [tuple(r[:2]) for r in out] == [(tag, i) for i in range(nloc)]
             rec["pids"] = sorted({r[2] for r in out})
             if not rec["out_ok"]:
                 rec["out"] = str(out)[:300]
